@@ -70,6 +70,8 @@ func (m *Model) PullEnterLeaveEvents(ctx context.Context, opts ...resource.ReadO
 			val := change.Value.(*traits.EnterLeaveEvent)
 			if change.LastSeedValue {
 				// when sending the initial data (not an update), the occupant and direction should be absent.
+				// Edit a copy: without a read mask the seed value is the stored message itself.
+				val = proto.Clone(val).(*traits.EnterLeaveEvent)
 				val.Occupant = nil
 				val.Direction = traits.EnterLeaveEvent_DIRECTION_UNSPECIFIED
 			}
